@@ -395,6 +395,12 @@ fn check_case(c: &Case) -> Outcome {
         };
     }
     let r = gdoc::render(&c.doc, &c.layout);
+    if c.special >= 200 {
+        return match check_enum_payload(c.special as usize - 200) {
+            Ok(()) => Outcome::Pass,
+            Err(m) => Outcome::Fail(m),
+        };
+    }
     if c.special >= 100 {
         // a stray token is inserted into the rendered text; whatever error comes back must carry
         // a consistent location (byte information may be absent for scanner errors)
@@ -506,6 +512,78 @@ fn check_merge(text: &str, base_vals: &[(String, (usize, usize))], alias_pos: (u
             }
             if (sp.referenced.line() as usize, sp.referenced.column() as usize) != alias_pos {
                 return Err(format!("merged key {k}: referenced {}:{}, the merge entry's value is at {}:{}", sp.referenced.line(), sp.referenced.column(), alias_pos.0, alias_pos.1));
+            }
+        }
+    }
+    Ok(())
+}
+
+/// Payloads of enum variants (`special` 200..): `!V 5`, `!T [5, 6]`, `{V: 5}`, `{T: [5, 6]}` in a
+/// sequence item or a mapping value, read directly and through an alias; every payload is a
+/// `Spanned<i64>`: directly it reports its own position twice, through the alias the alias token
+/// as use site and its own position as definition site.
+#[derive(Debug, Deserialize)]
+enum PayloadE {
+    V(Spanned<i64>),
+    T(Spanned<i64>, Spanned<i64>),
+}
+#[derive(Debug, Deserialize)]
+struct PayloadM {
+    a: PayloadE,
+    b: PayloadE,
+}
+fn check_enum_payload(code: usize) -> Result<(), String> {
+    let form = code % 4;
+    let in_map = (code / 4) % 2 == 1;
+    let lead = (code / 8) % 3;
+    let pad = ["", " ", "   "][(code / 24) % 3];
+    let body = ["!V 5", "!T [5, 6]", "{V: 5}", "{T: [5, 6]}"][form];
+    let mut text = String::new();
+    for i in 0..lead {
+        text.push_str(&format!("# \u{e9} lead {i}\n"));
+    }
+    let (l1, l2) = if in_map { (format!("a:{pad} &x {body}\n"), format!("b:{pad} *x\n")) } else { (format!("-{pad} &x {body}\n"), format!("-{pad} *x\n")) };
+    text.push_str(&l1);
+    text.push_str(&l2);
+    // ground truth by construction: the payload scalars are the `5` and the `6` of line `lead + 1`
+    let line1 = lead + 1;
+    let col = |needle: char| l1.chars().position(|ch| ch == needle).map(|i| i + 1);
+    let (c5, c6) = (col('5').unwrap(), col('6'));
+    let alias = (lead + 2, l2.chars().position(|ch| ch == '*').unwrap() + 1);
+    let (first, second): (PayloadE, PayloadE) = if in_map {
+        let m: PayloadM = serde_saphyr::from_str(&text).map_err(|e| format!("enum payload document rejected: {} (text {text:?})", e.without_snippet()))?;
+        (m.a, m.b)
+    } else {
+        let mut v: Vec<PayloadE> = serde_saphyr::from_str(&text).map_err(|e| format!("enum payload document rejected: {} (text {text:?})", e.without_snippet()))?;
+        if v.len() != 2 {
+            return Err(format!("{} items (text {text:?})", v.len()));
+        }
+        let b = v.pop().unwrap();
+        (v.pop().unwrap(), b)
+    };
+    let spans = |e: &PayloadE| -> Vec<(i64, (u64, u64), (u64, u64))> {
+        let f = |s: &Spanned<i64>| (s.value, (s.referenced.line(), s.referenced.column()), (s.defined.line(), s.defined.column()));
+        match e {
+            PayloadE::V(a) => vec![f(a)],
+            PayloadE::T(a, b) => vec![f(a), f(b)],
+        }
+    };
+    let mut want_cols = vec![c5];
+    if let Some(c) = c6 {
+        want_cols.push(c);
+    }
+    for (which, e, through_alias) in [("direct", &first, false), ("through the alias", &second, true)] {
+        let got = spans(e);
+        if got.len() != want_cols.len() {
+            return Err(format!("{which}: {} payload items (text {text:?})", got.len()));
+        }
+        for ((_, referenced, defined), c) in got.iter().zip(&want_cols) {
+            let own = (line1 as u64, *c as u64);
+            let want_ref = if through_alias { (alias.0 as u64, alias.1 as u64) } else { own };
+            if *defined != own || *referenced != want_ref {
+                return Err(format!(
+                    "enum payload {which}: referenced {referenced:?} / defined {defined:?}, expected referenced {want_ref:?} / defined {own:?} (text {text:?})"
+                ));
             }
         }
     }
@@ -743,6 +821,11 @@ impl Property for C16 {
             for n in 1..=MERGE_DOCS.len() as u8 {
                 let c = Case { doc: Node::plain("merge"), layout: Layout::default(), bad_leaf: None, special: n };
                 ctx.case("merge-locations", &c, true);
+            }
+            // 4 payload forms x sequence item / mapping value x 0-2 leading lines x 3 paddings
+            for n in 0..56u8 {
+                let c = Case { doc: Node::plain("enum-payload"), layout: Layout::default(), bad_leaf: None, special: 200 + n };
+                ctx.case("enum-payload-locations", &c, true);
             }
         }
     }
